@@ -37,6 +37,9 @@ type Cfg struct {
 	ErrText    string   `json:"errtext"` // "", "multiline", "nonascii": text of the scripted SMTP errors
 	Idn        bool     `json:"idn"`     // recipients live in an internationalized domain
 	Fwd        string   `json:"fwd"`     // variant (b): "" = target.smtp/target.lmtp, "remote" = the real remote-MX target
+	// RestartFirst: the process is stopped (cleanly) after the message was accepted and before its
+	// first attempt; every attempt then works from what a restarted queue reads back from the spool
+	RestartFirst bool `json:"restartFirst"`
 }
 
 type Step struct {
@@ -252,7 +255,25 @@ func runBehaviour(t *testing.T, b Behaviour, w *bufio.Writer) {
 			t.Fatal(err)
 		}
 		tr.Emit("QAccept", vtrace.Ev{"rcpts": distinct})
-		if err := d.Commit(ctx); err != nil {
+		if b.Cfg.RestartFirst {
+			// shut the queue down first: Commit on a stopped queue leaves the message in the spool
+			// without scheduling it; a new queue on the same directory picks it up
+			q.Close()
+			if err := d.Commit(ctx); err != nil {
+				t.Fatal(err)
+			}
+			q2, err := queue.VerifNewQueue(queue.VerifConfig{
+				Location: dir, Target: tgt, Bounce: bounce, MaxTries: b.Cfg.Mt, MaxParallelism: 1,
+				InitialRetryTime: retryDelay, RetryTimeScale: 1, PostInitDelay: 0,
+				Hostname: "mx.example.org", AutogenMsgDomain: "example.org",
+				Log: log.Logger{Out: log.NopOutput{}},
+			})
+			if err != nil {
+				t.Fatal(err)
+			}
+			q = q2
+			time.Sleep(2 * retryDelay)
+		} else if err := d.Commit(ctx); err != nil {
 			t.Fatal(err)
 		}
 		for i := 0; i < b.Cfg.Mt+3; i++ {
